@@ -54,6 +54,12 @@ def point_inside(points: np.ndarray, vertices: np.ndarray, in_out: str) -> np.nd
     mat = vertices[:, 1:].swapaxes(0, 1) - vertices[:, 0]
     mat = np.transpose(mat.swapaxes(0, 1), (0, 2, 1))
 
+    # a flat tetrahedron (zero volume) has no inside: avoid inverting its singular matrix
+    mask_flat = np.linalg.det(mat) == 0
+    if np.any(mask_flat):
+        mat = mat.copy()
+        mat[mask_flat] = np.eye(3)
+
     tetra = np.linalg.inv(mat)
     newp = np.matmul(tetra, np.reshape(points - vertices[:, 0, :], (*points.shape, 1)))
     inside = (
@@ -62,7 +68,7 @@ def point_inside(points: np.ndarray, vertices: np.ndarray, in_out: str) -> np.nd
         & (np.sum(newp, axis=1) <= 1)
     ).flatten()
 
-    return inside
+    return inside & ~mask_flat
 
 
 def BHJM_magnet_tetrahedron(
